@@ -14,7 +14,7 @@ ASSUME = ["1-D members have integer-length segments (axis-parallel or 3-4-5) so 
 def check(tier, seed, t0):
     stride = 6 if tier == "quick" else 1
     runs = [dict(name="trees", module="Gen_Centroid", constants=dict(Stride=stride, Offset=seed % stride), invariants=["MergeLaws"])]
-    runs += poly_common.poly_runs(tier)
+    runs += poly_common.poly_runs(tier, huge=True)
     vf.simple_check("C06", tier, seed, t0, runs, RULE, ASSUME,
                     nontrivial=lambda c: (c["op"] == "poly" and len(c["holes"]) > 0) or
                                          (c["op"] == "centroid" and c["g"]["t"] == "GeometryCollection" and len(c["g"]["gs"]) >= 2))
